@@ -8,7 +8,7 @@
    `S H V ids` — the specification set: ineligible inputs unchanged, filled target voxels, members of unfilled target voxels unchanged;
    `wfz i` — zooms and x, y non-negative (weaker than `valid`; no bound on list length, zooms or indices anywhere). *)
 From Coq Require Import ZArith List Lia Permutation String.
-From SID Require Import Base Str Ids Voxel ZoomCore Wire Merge MergeCheck MergeProof MergeRegion MergeIdem MergeCheckProof MergeApi.
+From SID Require Import Base Str Ids Voxel ZoomCore Wire Merge MergeCheck MergeProof MergeRegion MergeIdem MergeCheckProof MergeApi MergeHelpers.
 Import ListNotations.
 Open Scope Z_scope.
 
@@ -183,6 +183,55 @@ Theorem C04_verdict_accepts_the_model :
   prop_ext (map print_eid l) H V (of_LS (map print_eid (merge_x H V l))) = true.
 Proof. exact prop_ext_accepts_model. Qed.
 Print Assumptions C04_verdict_accepts_the_model.
+
+
+(* ---- 13. The exported merge helpers as stand-alone API (theories/MergeHelpers.v: maps are heap cells, so the aliasing created by
+   NewHighSpatialID — it keeps its argument's unit map by reference — is part of the model) ---- *)
+(* NewUnitDividedSpatialID with the differences the merge passes enumerates exactly Merge.units *)
+Theorem C04_NewUnitDividedSpatialID_is_units : forall MH MV i, units_d i (MH - eh i) (MV - ev i) = units MH MV i.
+Proof. exact units_d_units. Qed.
+Print Assumptions C04_NewUnitDividedSpatialID_is_units.
+
+(* r.Merge(a): the receiver holds the union; the ARGUMENT's unit set keeps exactly its members; an object that does not share the
+   receiver's map is literally untouched; an object that shares it sees the union *)
+Theorem C04_Merge_union_and_argument_unchanged : forall s r a, (g_map (nth r (highs s) high0) < List.length (heap s))%nat ->
+  hunits (merge_op s r a) r = uunion (hunits s r) (hunits s a) /\
+  (forall c, In c (hunits (merge_op s r a) r) <-> In c (hunits s r) \/ In c (hunits s a)) /\
+  (forall c, In c (hunits (merge_op s r a) a) <-> In c (hunits s a)) /\
+  (forall k, g_map (nth k (highs s) high0) <> g_map (nth r (highs s) high0) -> hunits (merge_op s r a) k = hunits s k) /\
+  (forall k, g_map (nth k (highs s) high0) = g_map (nth r (highs s) high0) -> hunits (merge_op s r a) k = uunion (hunits s r) (hunits s a)).
+Proof. exact merge_op_spec. Qed.
+Print Assumptions C04_Merge_union_and_argument_unchanged.
+
+Theorem C04_Merge_appends_lowIDs : forall s r a, (r < List.length (highs s))%nat ->
+  g_low (nth r (highs (merge_op s r a)) high0) = (g_low (nth r (highs s) high0) ++ g_low (nth a (highs s) high0))%list /\
+  forall k, k <> r -> nth k (highs (merge_op s r a)) high0 = nth k (highs s) high0.
+Proof. exact merge_op_low. Qed.
+Print Assumptions C04_Merge_appends_lowIDs.
+
+(* IsDense is the count test *)
+Theorem C04_IsDense_is_count_test : forall s k,
+  is_dense s k = true <-> Z.of_nat (List.length (hunits s k)) = g_thr (nth k (highs s) high0).
+Proof. exact is_dense_count. Qed.
+Print Assumptions C04_IsDense_is_count_test.
+
+(* the helpers composed the way MergeExtendedSpatialIds drives them (one private unit object per member, all merged into the first)
+   give, for one group, the ID, lowIDs, threshold and density verdict of the model's merge — which C04_count_test_is_covering_test
+   and C04_merge_is_the_specification_set read as "the group covers its target voxel" *)
+Theorem C04_helper_composition_is_one_group_of_merge : forall H V MH MV el T i0 rest, group H V el T = i0 :: rest ->
+  let r := compose H V MH MV i0 rest in
+  p_id r = target H V i0 /\ p_low r = group H V el T /\ p_thr r = thr H V MH MV /\ hp_dense r = dense H V MH MV el T.
+Proof. exact compose_is_group. Qed.
+Print Assumptions C04_helper_composition_is_one_group_of_merge.
+
+(* the seeded scenario on the model: an aggregate of 7 of the 8 children used twice as argument makes both receivers dense and keeps
+   its own 7 cells; the verdict computed from observations accepts the model's own prediction *)
+Example C04_helper_sequence :
+  let sts := run_ops (init_st ex_units ex_highs) ex_ops in
+  let fin := last sts (init_st [] []) in
+  is_dense fin 7 = true /\ is_dense fin 8 = true /\ is_dense fin 0 = false /\ List.length (hunits fin 0) = 7%nat /\
+  script_prop ex_units ex_highs ex_ops (script_model ex_units ex_highs ex_ops) = true.
+Proof. exact ex_sequence. Qed.
 
 (* ---- non-vacuity ---- *)
 (* the two halves on either side of ground level are NOT fused (the defect repaired by 27792ec), two halves below ground are *)
